@@ -28,6 +28,8 @@ class PosCoded(torch.nn.Module):
         if a1 is not None:
             a = a.double().reshape(-1) + 100 * a1.double().reshape(-1)
         y = self._f(X, a, torch.arange(self.T))
+        if self.out == "tensor" and getattr(self, "U", 1) == 2:       # (n, T, 2): entry [t][u] = F(x, a, t + 10 u)
+            return torch.stack([y, self._f(X, a, torch.arange(self.T) + 10)], dim=-1)
         if self.out == "tensor":
             return y
         y2 = self._f(X, a, torch.arange(4) + 7).reshape(-1, 2, 2)
